@@ -278,7 +278,7 @@ func init() {
 			modPath + "/css.minifyNumberPercentage", modPath + "/css.(*cssMinifier).minifyDimension",
 		},
 		Custom:  []string{"partial", "tables"},
-		Partial: []string{modPath + "/css.(*cssMinifier).minifyProperty", modPath + "/css.(*cssMinifier).minifyGrammar", modPath + "/css.(*cssMinifier).minifySelectors"},
+		Partial: []string{modPath + "/css.(*cssMinifier).minifyProperty", modPath + "/css.(*cssMinifier).minifyGrammar", modPath + "/css.(*cssMinifier).minifySelectors", modPath + "/css.(*cssMinifier).minifyTokens"},
 		Notes: []string{
 			"value-rewriting kernels of the real css package under full contract (all inputs, byte-level postconditions whose meaning is stated next to them): minifyColor on hash colours (alpha pair dropped only when both nibbles are f, '#0000' only when both are 0, 3/4-digit form only when both nibbles of every channel are equal, otherwise the lower-cased input; name lookups are the C17 table lemmas); minifyNumberPercentage (d0% -> .d, .0d -> d%, .00x -> .x%, anything else unchanged); minifyLengthPercentage (only a value starting with 0 loses its unit and becomes that 0); Token.IsZero; minifyDimension (split at the last non-letter, unit lower-cased, exactly the number bytes handed once to Number - Decimal under KeepCSS2 - with the configured precision, result = that number followed by the unit, proved through the overlapping append)",
 			"site assertions in the real minifyProperty (partial contract): the flex rewrites that inspect only the first byte of <flex-grow>/<flex-shrink> are reached only when those numbers are single characters",
